@@ -390,13 +390,13 @@ def _count(counts, key):
         counts[key] = counts.get(key, 0) + 1
 
 
-def setter_mutated_objects(rng, g, counts=None):
+def setter_mutated_objects(rng, g, counts=None, fixed=None):
     """mutation histories: a validly constructed object, then attribute assignments through the setters with values the
     constructor would refuse (or the edge values '' / None); whatever the setters accept must still be encoded validly
     or refused by tocimxml()"""
     import pywbem
     out = []
-    base = rng.choice(['method', 'prop', 'param', 'qual', 'qdecl', 'inst', 'cls', 'path', 'classname'])
+    base = fixed[0] if fixed else rng.choice(SETTER_BASES)
     o = {'method': lambda: pywbem.CIMMethod(g.name('M'), 'uint8'),
          'prop': lambda: pywbem.CIMProperty(g.name('P'), None, type='string', is_array=rng.random() < 0.4),
          'param': lambda: pywbem.CIMParameter(g.name('A'), 'string', is_array=rng.random() < 0.4),
@@ -421,9 +421,13 @@ def setter_mutated_objects(rng, g, counts=None):
         'path': [('host', ['', b'h']), ('namespace', ['', '/', b'n']), ('classname', ['', None])],
         'classname': [('host', ['']), ('namespace', ['', b'n/m']), ('classname', ['', None])],
     }[base]
-    for _ in range(rng.choice([1, 1, 2])):
+    if fixed == (base,):
+        return [(base, attr, i) for attr, vals in edits for i in range(len(vals))]
+    for _ in range(1 if fixed else rng.choice([1, 1, 2])):
         attr, vals = rng.choice(edits)
         v = rng.choice(vals)
+        if fixed:
+            attr, v = fixed[1], dict(edits)[fixed[1]][fixed[2]]
         try:
             setattr(o, attr, v)
             _count(counts, 'gen:setter_accepted:%s.%s' % (base, attr))
@@ -447,7 +451,19 @@ def setter_mutated_objects(rng, g, counts=None):
     return out
 
 
-def bytes_argument_objects(rng, g, counts=None):
+SETTER_BASES = ['method', 'prop', 'param', 'qual', 'qdecl', 'inst', 'cls', 'path', 'classname']
+
+
+def all_setter_histories(rng, g, counts=None):
+    """every single (object kind, attribute, value) edit of setter_mutated_objects once"""
+    out = []
+    for base in SETTER_BASES:
+        for fx in setter_mutated_objects(rng, g, None, fixed=(base,)):
+            out += setter_mutated_objects(rng, g, counts, fixed=fx)
+    return out
+
+
+def bytes_argument_objects(rng, g, counts=None, every=False):
     """byte strings for the name- and type-like constructor arguments (pywbem converts them with _ensure_unicode)"""
     import pywbem
     out = []
@@ -470,7 +486,7 @@ def bytes_argument_objects(rng, g, counts=None):
         lambda: pywbem.CIMInstanceName(b'C', {b'k': b'v'}, namespace=b'a/b', host=b'h'),
         lambda: pywbem.CIMClassName(b'C', namespace=b'/a/', host=b''),
     ]
-    for mk in rng.sample(makers, 3):
+    for mk in (makers if every else rng.sample(makers, 3)):
         try:
             o = mk()
         except Exception as e:  # noqa
@@ -492,6 +508,8 @@ def near_miss_objects(rng, n, counts=None):
     import pywbem
     g = PGen(rng)
     out = []
+    out += all_setter_histories(rng, g, counts)
+    out += bytes_argument_objects(rng, g, counts, every=True)
     for i in range(n):
         k = rng.choice(['scope_odd', 'scope_any_false', 'scope_dup', 'refarray_prop', 'keyless', 'nonekey', 'host_only',
                         'emb_obj', 'arraysize', 'empty_names', 'param_value', 'empty_host', 'empty_host', 'empty_strings',
